@@ -200,7 +200,17 @@ func (w *Wallet) txToOutputs(outputs []*wire.TxOut,
 			}
 
 			var eligibleSelectedUtxo []wtxmgr.Credit
+			seenOutpoints := make(map[wire.OutPoint]struct{})
 			for _, outpoint := range selectedUtxos {
+				// An outpoint can only be spent once by a
+				// transaction.
+				if _, dup := seenOutpoints[outpoint]; dup {
+					return fmt.Errorf("selected outpoint "+
+						"specified more than once: %v",
+						outpoint)
+				}
+				seenOutpoints[outpoint] = struct{}{}
+
 				e, ok := eligibleByOutpoint[outpoint]
 
 				if !ok {
